@@ -41,8 +41,13 @@ pub fn check_scenario(sc: &Scenario, renders: usize) -> Result<serde_json::Value
             }
         };
         let mut outs = Vec::new();
+        let mut fulls: Vec<String> = Vec::new();
         for _ in 0..renders {
             let o = render(&t, &data);
+            fulls.push(match &o {
+                crate::exec::Out::Err(_) => crate::exec::error_fingerprint(&crate::exec::last_error_text().unwrap_or_default()),
+                _ => String::new(),
+            });
             if let crate::exec::Out::Panic(p) = &o {
                 return Err((p.key(), format!("render panicked under {}: {} at {}", policy.name(), p.msg, p.site())));
             }
@@ -51,10 +56,10 @@ pub fn check_scenario(sc: &Scenario, renders: usize) -> Result<serde_json::Value
             outs.push(o.summary_with_error());
         }
         // repeated use equals first use
-        if outs.iter().any(|o| o != &outs[0]) {
+        if outs.iter().any(|o| o != &outs[0]) || fulls.iter().any(|f| f != &fulls[0]) {
             return Err((
                 format!("repeat-differs:{}", policy.name()),
-                format!("repeated renders on one parser differ under {}: {:?}", policy.name(), outs.iter().map(|o| o.chars().take(80).collect::<String>()).collect::<Vec<_>>()),
+                format!("repeated renders on one parser differ under {}: {:?}", policy.name(), outs.iter().zip(&fulls).map(|(o, f)| format!("{} {}", o.chars().take(80).collect::<String>(), f)).collect::<Vec<_>>()),
             ));
         }
         results.push((policy, outs));
